@@ -287,6 +287,11 @@ public:
         if (CS->getLHS()->EvaluateAsInt(R, Ctx)) J.attribute("lo", R.Val.getInt().getExtValue());
         if (const auto *DR = dyn_cast<DeclRefExpr>(stripToRef(CS->getLHS())))
           J.attribute("lon", DR->getDecl()->getName());
+        else {
+          std::string LM = immediateMacroOf(CS->getLHS()->getBeginLoc());
+          if (LM.empty()) LM = macroOf(CS->getLHS()->getBeginLoc());
+          if (!LM.empty()) J.attribute("lon", LM);     // label written as a macro name
+        }
         if (CS->getRHS()) {
           Expr::EvalResult R2;
           if (CS->getRHS()->EvaluateAsInt(R2, Ctx)) J.attribute("hi", R2.Val.getInt().getExtValue());
